@@ -10,5 +10,6 @@ func selftest(seed int64) int {
 // setupGenStubs returns minimal generated modules so that SANY can parse every MC_/Trace_ module at setup.
 func setupGenStubs() map[string]string {
 	g := &matchGen{Pool: []string{"/a"}, Paths: []string{"/a"}, Hosts: []string{"a.b"}, MaxTab: 1}
-	return map[string]string{"Gen_Match.tla": g.tla(false)}
+	sg := &serveGen{Pool: []string{"/a"}, EnumN: 1, EntryMethods: []string{"GET"}, ReqMethods: []string{"GET"}, Paths: []string{"/a"}, Host: "a.b", MaxTab: 1}
+	return map[string]string{"Gen_Match.tla": g.tla(false), "Gen_Serve.tla": sg.tla()}
 }
